@@ -62,7 +62,11 @@ func (c *Client) Produce(args ProduceArgs) (enc.Name, error) {
 	}
 
 	// TODO: sign the data
-	basename := append(args.Name, enc.NewVersionComponent(version))
+	// do not append in place: args.Name may have spare capacity, and the names
+	// derived from it below must not share (and overwrite) one backing array
+	objName := args.Name[:len(args.Name):len(args.Name)]
+	basename := append(objName, enc.NewVersionComponent(version))
+	basename = basename[:len(basename):len(basename)]
 	signer := sec.NewSha256Signer()
 
 	// use a transaction to ensure the entire object is written
@@ -107,7 +111,7 @@ func (c *Client) Produce(args ProduceArgs) (enc.Name, error) {
 	}
 
 	{ // write metadata packet
-		name := append(args.Name,
+		name := append(objName,
 			enc.NewStringComponent(enc.TypeKeywordNameComponent, "metadata"),
 			enc.NewVersionComponent(version),
 			enc.NewSegmentComponent(0),
